@@ -140,6 +140,15 @@ def _retify(stmts, var, loc):
                 all_leave = all_leave and (hl or _always_leaves(h.body))
                 hs.append(ast.copy_location(ast.ExceptHandler(type=h.type, name=h.name, body=hb or [ast.Pass()]), h))
             if not all_leave:
+                # `try: x = next(it) / except StopIteration: return` followed by the rest of the helper: the body falls
+                # through, every handler leaves -> the rest moves into the else clause of the try (it runs exactly when no
+                # handler ran, and what it raises is not caught by them -- as before)
+                body_rets = any(isinstance(x, ast.Return) for b in s.body + s.orelse for x in ast.walk(b))
+                handlers_leave = all(_always_leaves(h.body) or _retify(h.body, var, loc)[1] for h in s.handlers)
+                if not body_rets and handlers_leave:
+                    r, rl = _retify(rest, var, loc)
+                    out.append(ast.copy_location(ast.Try(body=s.body, handlers=hs, orelse=list(s.orelse) + r, finalbody=[]), s))
+                    return out, rl
                 raise _NoInline('try statement with a return that may fall through')
             out.append(ast.copy_location(ast.Try(body=tb or [ast.Pass()], handlers=hs, orelse=[], finalbody=[]), s))
             return out, True
@@ -599,7 +608,13 @@ class Inliner(object):
             raise _NoInline('yield from in sub-generator')
         rets = [x for b in body for x in ast.walk(b) if isinstance(x, ast.Return)]
         if rets:
-            raise _NoInline('sub-generator with return')
+            # `return` in a generator ends it: turn the guard returns into if/else resp. try/else, so that what follows the
+            # loop in the caller still runs
+            if any(r.value is not None for r in rets):
+                raise _NoInline('sub-generator with a return value')
+            body, _ = _retify(body, None, s)
+            if any(isinstance(x, ast.Return) for b in body for x in ast.walk(b)):
+                raise _NoInline('sub-generator with return')
         tgt = s.target.id
 
         def repl(stmts):
@@ -631,7 +646,12 @@ class Inliner(object):
         pre, body = self.body_of(g, mapping, caller_names)
         rets = [x for b in body for x in ast.walk(b) if isinstance(x, ast.Return)]
         if rets and s is not self._tail:
-            raise _NoInline('sub-generator with return, not in tail position')
+            # not the last statement of the caller: the guard returns of the sub-generator become if/else resp. try/else
+            if any(r.value is not None for r in rets):
+                raise _NoInline('sub-generator with a return value, not in tail position')
+            body, _ = _retify(body, None, s)
+            if any(isinstance(x, ast.Return) for b in body for x in ast.walk(b)):
+                raise _NoInline('sub-generator with return, not in tail position')
         self.inlined_fns.add(g.fq)
         return pre + body
 
@@ -667,6 +687,7 @@ def apply(project, resolver, report_note=None):
         return 0, []
     inl = Inliner(project, resolver, known)
     n = 0
+    second = []
     for m in list(project.modules.values()):
         if m.name.startswith('petl._controls'):
             continue        # the synthetic twins are analysed exactly as written
@@ -682,7 +703,7 @@ def apply(project, resolver, report_note=None):
             fn.orig_body = list(old.body)       # the function as written (for rules about the shape of the source itself)
             # graft the expanded body into the original FunctionDef object, so that every reference to the node
             # (class bodies, module trees, nested-function tables) sees the expanded function
-            old.body = new.body
+            old.body = _fold_constant_ifs(new.body)
             # nested defs were deep-copied: re-link their FunctionInfos
             copies = {}
             for x in ast.walk(old):
@@ -691,8 +712,40 @@ def apply(project, resolver, report_note=None):
             for name, sub in list(fn.nested.items()):
                 _relink(sub, copies)
             # nested defs that came in with an inlined helper are functions of the caller now
+            before = set(fn.nested)
             _adopt_nested(m, fn)
             fn.is_generator = any(isinstance(x, (ast.Yield, ast.YieldFrom)) for x in _own(old))
+            if set(fn.nested) - before:
+                second.append((m, fn))
+    # a closure that arrived with an inlined factory (`dump = _dumper(f, protocol)` ... `dump(row)`) is itself a helper
+    # unknown to the rules: one more round for the functions that adopted such closures, with a fresh resolver
+    if second:
+        from .resolve import Resolver
+        inl2 = Inliner(project, Resolver(project), known)
+        for m, fn in second:
+            # `dump = dump` left over from `dump = factory(...)` with the factory returning its inner def: drop it
+            class _SelfAssign(ast.NodeTransformer):
+                def visit_Assign(self, node):
+                    if len(node.targets) == 1 and isinstance(node.targets[0], ast.Name) and isinstance(node.value, ast.Name) \
+                            and node.targets[0].id == node.value.id:
+                        return None
+                    return node
+            _SelfAssign().visit(fn.node)
+            try:
+                new = inl2.expand(fn)
+            except RecursionError:
+                continue
+            if new is fn.node:
+                continue
+            fn.node.body = new.body
+            copies = {}
+            for x in ast.walk(fn.node):
+                if isinstance(x, (ast.FunctionDef, ast.AsyncFunctionDef)) and x is not fn.node:
+                    copies.setdefault((x.name, x.lineno), x)
+            for name, sub in list(fn.nested.items()):
+                _relink(sub, copies)
+            fn.is_generator = any(isinstance(x, (ast.Yield, ast.YieldFrom)) for x in _own(fn.node))
+        inl.inlined_fns |= inl2.inlined_fns
     # a helper whose every use was inlined no longer exists as far as the rules are concerned
     gone = []
     for fq in sorted(inl.inlined_fns):
@@ -735,6 +788,26 @@ def apply(project, resolver, report_note=None):
     return n, gone
 
 
+def _fold_constant_ifs(stmts):
+    """a literal argument substituted for a flag parameter of an inlined helper leaves `if False: ... else: ...` behind:
+    keep the live branch only"""
+    out = []
+    for st in stmts:
+        if isinstance(st, ast.If) and isinstance(st.test, ast.Constant) and isinstance(st.test.value, bool):
+            out.extend(_fold_constant_ifs(st.body if st.test.value else st.orelse))
+            continue
+        for field in ('body', 'orelse', 'finalbody'):
+            blk = getattr(st, field, None)
+            if isinstance(blk, list) and blk and isinstance(blk[0], ast.stmt) and not isinstance(st, (ast.FunctionDef, ast.ClassDef)):
+                new = _fold_constant_ifs(blk)
+                setattr(st, field, new if (new or field != 'body') else [ast.copy_location(ast.Pass(), st)])
+        if isinstance(st, ast.Try):
+            for h in st.handlers:
+                h.body = _fold_constant_ifs(h.body) or [ast.copy_location(ast.Pass(), h)]
+        out.append(st)
+    return out
+
+
 def _own(fnode):
     stack = list(reversed(fnode.body))
     while stack:
@@ -750,7 +823,16 @@ def _adopt_nested(module, fn):
     """register the nested defs found directly in fn's body that have no FunctionInfo yet (recursively)"""
     from .loader import FunctionInfo
     known = {id(sub.node) for sub in fn.nested.values()}
-    for x in _own(fn.node):
+
+    def defs(node):
+        # function definitions at any depth of fn's own statements (inside with / try / if), not inside other functions
+        for c in ast.iter_child_nodes(node):
+            if isinstance(c, (ast.FunctionDef, ast.AsyncFunctionDef)):
+                yield c
+            elif not isinstance(c, (ast.Lambda, ast.ClassDef)):
+                for d in defs(c):
+                    yield d
+    for x in defs(fn.node):
         if isinstance(x, (ast.FunctionDef, ast.AsyncFunctionDef)) and id(x) not in known:
             name = x.name
             if name in fn.nested:
